@@ -164,3 +164,9 @@ def build(sess):
                         'the position of the returned ends on the input segment (explicit parameter witnesses), containment, '
                         'orientation and maximality (for an arbitrary t) are obligations; division-by-zero paths and the failsafe '
                         'exit are proved unreachable.')
+
+
+def fallback(sess):
+    r = native('n_c08', 'search', {})
+    r['what'] = 'n_c08.search'
+    return [r]
